@@ -202,7 +202,7 @@ def tree_stream(ctx, c, qs, meta):
                     if jtxt is not None and "ok" in r.get("name", {}) and not corpus.has_dup_keys(jtxt):
                         qs.append({"op": "oracle_member", "decls": decls, "ty": r["name"]["ok"], "json": jtxt})
                         meta.append((("f", xi), qi, vi, "name"))
-    lines, back = [c.chars], []
+    lines, back, ilines = [c.chars], [], []
     for progs, real, tag in sets:
         for pi, (prog, R) in enumerate(zip(progs, real)):
             byname = {}
@@ -211,7 +211,29 @@ def tree_stream(ctx, c, qs, meta):
                     byname.setdefault(pr["ty"]["id"], r["decl"]["ok"])
             lines.append({"op": "tree_check", "items": prog["items"], "decls": [byname.get(it["name"], "") for it in prog["items"]]})
             back.append((tag, pi, prog))
+            ilines.append({"op": "inline_check", "items": prog["items"], "decls": [byname.get(it["name"], "") for it in prog["items"]]})
     res = vlib.run_model(lines)
+    # C01_inline_sound / C14_checked_unfolding: the REAL declarations (with `inline` marks) must be accepted by the proven-sound unfolding
+    # test as unfoldings of the tree-level declarations of the program without the marks
+    ires = vlib.run_model([c.chars] + ilines)
+    n_marked = n_iprogs = 0
+    for (tag, pi, prog), r in zip(back, (ires or [None])[1:]):
+        if not r.get("frag") or not r.get("sub"):
+            continue
+        n_iprogs += 1
+        n_marked += r.get("marked", 0)
+        if not r.get("wsd"):
+            ctx.broken.append(f"tree-level declarations are not well-scoped (hypothesis WSD of the unfolding theorem): {tag} program {pi}")
+        if not r.get("unf"):
+            bad = [it for it in prog["items"] if it["name"] in r.get("bad", [])]
+            ctx.broken.append(f"a real declaration is not an unfolding of the tree-level declaration of the program without its inline marks "
+                              f"(tie of C01_inline_sound): {tag} program {pi} items {r.get('bad')}: {json.dumps(bad)[:500]}")
+    if ires is None:
+        ctx.broken.append("inline_check: model driver unavailable")
+    ctx.stream("real declarations as unfoldings (inline)", n_iprogs, n_marked,
+               "the same programs: the `inline` marks are removed, the largest closed sub-program inside the fragment is taken, its tree-level declarations D are computed, "
+               "and the parsed REAL declarations D' of the marked program are submitted to `declsUnfB D 40 D D'` (proven sound for `DeclsUnf`) together with `wsdB D`; "
+               "non-trivial = items with an inline mark inside such a sub-program", [], {"programs": n_iprogs, "marked_items": n_marked})
     n_in = n_items = n_frag = 0
     if res is None:
         ctx.broken.append("tree_check: model driver unavailable")
